@@ -88,7 +88,7 @@ def exc_class(e):
     return "OtherError:" + type(e).__name__
 
 
-def run_tasks(n, fn, timeout=20.0):
+def run_tasks(n, fn, timeout=90.0):
     """fn(comm) on n fake tasks; exceptions are returned, never raised (so that a raising task
     does not break the barrier the others are still leaving)."""
     def wrapped(comm, r):
@@ -156,6 +156,8 @@ def run_history(h, workdir):
             else:
                 res = do_load(path, kind, op[1])
             steps.append({"op": op, "before": before, "after": snapshot(workdir, base), "res": res})
+            if any(r[0] == "exc" and r[1] == "Deadlock" for r in res):
+                break           # a task blocked: the rest of the history is meaningless (and slow)
     shutil.rmtree(workdir, ignore_errors=True)
     return steps
 
@@ -472,8 +474,12 @@ class C26(C.Check):
             hs.append(gen_history(rng, ctx.seed * 1000 + i, int(rng.integers(3, 9))))
         checks, where = [], []
         self.hist = []
+        blocked = 0
         for hi, h in enumerate(hs):
+            if blocked >= 2:
+                break           # tasks block (reported below); do not wait for the timeout again and again
             steps = run_history(h, work)
+            blocked += any(r[0] == "exc" and r[1] == "Deadlock" for s in steps for r in s["res"])
             self.hist.append((h, steps))
             for si, s in enumerate(steps):
                 checks.append(step_check(h, s))
